@@ -3,6 +3,7 @@
     the translated definition of [<m>] (by [lib_spec], or by [Ltac <m>_proof] when one is given here). *)
 From Coq Require Import NArith List Bool.
 From Pi2 Require Import ML.Syntax ML.Subst Lib.Term Lib.TermFacts Lib.Tactics Lib.Match.
+From Pi2 Require Gen.PropLib.   (* definitions only: the class axiom lists *)
 Import ListNotations.
 Open Scope N_scope.
 
@@ -26,45 +27,35 @@ Definition or_cong_stmt (f : thunk -> thunk -> thunk) : Prop :=
 
 (** tautology.py:166-182, 294-327: rules that first instantiate one premise with the map
     [match_single] returns (docstring is prose: "Same as imp_transitivity but h1 is instantiated to
-    match h2").  Exact characterisation, including when they raise ([None]); the instantiated premise
-    must be plain (no constrained metavariable / pending substitution: there the generator's
-    instantiate and the checker's differ, DESIGN D9). *)
+    match h2").  Exact characterisation for ALL patterns, including when they raise ([None]);
+    [PM.py_inst] is the generator's [Pattern.instantiate] (PTerm/Model.v). *)
 Definition imp_trans_match1_stmt (f : thunk -> thunk -> thunk) : Prop :=
   forall h1 h2 a b c d, conc h1 = Some (Imp a b) -> conc h2 = Some (Imp c d) ->
-    plain a = true -> plain b = true ->
     conc (f h1 h2) = match match_single b c [] with
-                     | Some th => Some (Imp (pinst th a) d) | None => None end.
+                     | Some th => Some (Imp (PM.py_inst th a) d) | None => None end.
 Definition imp_trans_match2_stmt (f : thunk -> thunk -> thunk) : Prop :=
   forall h1 h2 a b c d, conc h1 = Some (Imp a b) -> conc h2 = Some (Imp c d) ->
-    plain c = true -> plain d = true ->
     conc (f h1 h2) = match match_single c b [] with
-                     | Some th => Some (Imp a (pinst th d)) | None => None end.
+                     | Some th => Some (Imp a (PM.py_inst th d)) | None => None end.
 Definition equiv_match_l_stmt (f : thunk -> pat -> thunk) : Prop :=
-  forall h p a b, conc h = Some (p_equiv a b) -> plain a = true -> plain b = true ->
+  forall h p a b, conc h = Some (p_equiv a b) ->
     conc (f h p) = match match_single a p [] with
-                   | Some th => Some (p_equiv p (pinst th b)) | None => None end.
+                   | Some th => Some (p_equiv p (PM.py_inst th b)) | None => None end.
 Definition equiv_match_r_stmt (f : thunk -> pat -> thunk) : Prop :=
-  forall h p a b, conc h = Some (p_equiv a b) -> plain a = true -> plain b = true ->
+  forall h p a b, conc h = Some (p_equiv a b) ->
     conc (f h p) = match match_single b p [] with
-                   | Some th => Some (p_equiv (pinst th a) p) | None => None end.
+                   | Some th => Some (p_equiv (PM.py_inst th a) p) | None => None end.
 Definition equiv_trans_match1_stmt (f : thunk -> thunk -> thunk) : Prop :=
   forall h1 h2 a b c d, conc h1 = Some (p_equiv a b) -> conc h2 = Some (p_equiv c d) ->
-    plain a = true -> plain b = true ->
     conc (f h1 h2) = match match_single b c [] with
-                     | Some th => Some (p_equiv (pinst th a) d) | None => None end.
+                     | Some th => Some (p_equiv (PM.py_inst th a) d) | None => None end.
 Definition equiv_trans_match2_stmt (f : thunk -> thunk -> thunk) : Prop :=
   forall h1 h2 a b c d, conc h1 = Some (p_equiv a b) -> conc h2 = Some (p_equiv c d) ->
-    plain c = true -> plain d = true ->
     conc (f h1 h2) = match match_single c b [] with
-                     | Some th => Some (p_equiv a (pinst th d)) | None => None end.
+                     | Some th => Some (p_equiv a (PM.py_inst th d)) | None => None end.
 
 Create HintDb plm.
-Lemma dynamic_inst_plain_spec' : forall X d p S,
-  conc X = Some p -> plain p = true -> pinst d p = S -> conc (dynamic_inst X d) = Some S.
-Proof. intros X d p S H1 H2 <-. now apply dynamic_inst_plain_spec. Qed.
-#[global] Hint Resolve dynamic_inst_plain_spec' : plm.
-#[global] Hint Extern 1 (plain _ = true) =>
-  cbn [plain]; repeat match goal with H : plain _ = true |- _ => rewrite H end; reflexivity : plm.
+#[global] Hint Resolve dynamic_inst_imp_spec dynamic_inst_equiv_spec : plm.
 
 Ltac match_rule_proof m :=
   intros; unfold m; lib_norm; cbn zeta;
@@ -73,11 +64,8 @@ Ltac match_rule_proof m :=
       let th := fresh "th" in
       let M := fresh "M" in
       destruct (match_single b c []) as [th|] eqn:M; cbn [bindc]; [|reflexivity];
-      match goal with
-      | Hb : plain b = true |- _ =>
-          let P := fresh "P" in
-          destruct (match_single_sound b c [] th Hb M) as (_ & _ & P); subst c
-      end
+      let P := fresh "P" in
+      pose proof (match_single_py_inst b c th M) as P; subst c
   end;
   solve [ eauto 60 with pl plm nocore ].
 
@@ -87,3 +75,51 @@ Ltac equiv_match_l_proof m := match_rule_proof m.
 Ltac equiv_match_r_proof m := match_rule_proof m.
 Ltac equiv_trans_match1_proof m := match_rule_proof m.
 Ltac equiv_trans_match2_proof m := match_rule_proof m.
+
+(** proofs/substitution.py.  The docstrings use binders ("forall {var} . phi"), outside the schema grammar. *)
+(** universal_gen:  phi |- forall var . phi    (forall x . p = ~ exists x . ~ p) *)
+Definition universal_gen_stmt (f : thunk -> N -> thunk) : Prop :=
+  forall phi x c, conc phi = Some c -> conc (f phi x) = Some (p_neg (Ex x (p_neg c))).
+(** top_univgen:  forall x0 . T *)
+Definition top_univgen_stmt (f : thunk) : Prop :=
+  conc f = Some (p_neg (Ex 0 (p_neg p_top))).
+(** functional_subst:  "exists x0 . p = x0,  forall x1 . q  |-  q[p/x1]".  What the method does is two modus
+    ponens on the DECLARED axiom [exists x0. phi0 = x0 -> (forall x1. phi1) -> phi1[phi0/x1]] without
+    instantiating it: it applies only when the premises are literally the axiom's antecedents (the
+    metavariables phi0 (x0-fresh) and phi1 themselves), and concludes the axiom's consequent.  For any other
+    p, q of the documented shape it raises (finding D-C10-2). *)
+Definition functional_subst_stmt (f : thunk -> thunk -> thunk) : Prop :=
+  forall h1 h2 a1 a2 c,
+    nth_error Gen.PropLib.substitution_axioms 0 = Some (Imp a1 (Imp a2 c)) ->
+    conc h1 = Some a1 -> conc h2 = Some a2 -> conc (f h1 h2) = Some c.
+Ltac functional_subst_proof m :=
+  intros;
+  match goal with H : nth_error _ 0 = Some _ |- _ => cbn in H; injection H as <- <- <- end;
+  lib_spec m.
+
+(** Generalization needs the variable fresh in the consequent: here the consequent is bot *)
+Ltac universal_gen_wf_proof m :=
+  intros; unfold m;
+  match goal with
+  | |- owf true _ (bindc (conc ?h) _) =>
+      let c := fresh "c" in
+      let Hc := fresh "Hc" in
+      destruct (conc h) as [c|] eqn:Hc; cbn [bindc]; [|exact I];
+      apply gen_wf;
+      [ solve [ eauto 50 with plwf nocore ]
+      | let l := fresh "l" in
+        let r := fresh "r" in
+        let Hl := fresh "Hl" in
+        intros l r Hl;
+        match type of Hl with
+        | conc ?X = _ =>
+            let E := fresh "E" in
+            assert (E : conc X = Some (Imp (Imp c p_bot) p_bot)) by (solve [ eauto 20 with pl nocore ]);
+            rewrite E in Hl; injection Hl as <- <-; reflexivity
+        end ]
+  end.
+
+(** proofs/small_theory.py (no docstrings): the two declared axioms and their composition *)
+Definition sym0_implies_sym1_stmt (f : thunk) : Prop := conc f = Some (Imp (Sym 0) (Sym 1)).
+Definition sym1_implies_sym2_stmt (f : thunk) : Prop := conc f = Some (Imp (Sym 1) (Sym 2)).
+Definition sym0_implies_sym2_proof_stmt (f : thunk) : Prop := conc f = Some (Imp (Sym 0) (Sym 2)).
